@@ -49,6 +49,7 @@ def consuming(g):
     if h == "Memo": return consuming(g[2])
     if h in ("Rec", "RecDecl", "Boxed"): return consuming(g[1])
     if h == "NestedIn": return True
+    if h == "NestedDelims": return True
     if h == "ExtWrap": return consuming(g[1])
     if h == "Pratt": return consuming(g[2])
     return False
@@ -82,7 +83,8 @@ EMIT = ["Validate"]
 RECOVER = ["RecoverVia", "RecoverSkipUntil", "RecoverSkipRetry"]
 DECOR = ["Labelled", "MapErr"]
 CTX = ["WithCtx", "IgnoreWithCtx", "ThenWithCtx", "MapCtx", "JustCfg"]
-LEAVES = {"End", "Empty", "Any", "Just", "OneOf", "NoneOf", "Select", "Custom", "JustCfg", "Skip"}
+LEAVES = {"End", "Empty", "Any", "Just", "OneOf", "NoneOf", "Select", "Custom", "JustCfg", "Skip", "NestedDelims"}
+DELIMS = [(40, 41), (91, 93), (123, 125)]
 sexp_G_HEADS = {"End", "Empty", "Any", "Just", "OneOf", "NoneOf", "Select", "Custom", "Map", "MapWith", "To", "Ignored",
            "ToSpan", "ToSlice", "Filter", "TryMap", "TryMapWith", "Validate", "Then", "IgnoreThen", "ThenIgnore",
            "DelimitedBy", "PaddedBy", "Group", "Or", "Choice", "ChoiceVec", "OrNot", "Not", "AndIs", "Rewind",
@@ -138,6 +140,9 @@ class Gen:
         if c == "Custom": return ["Custom", self.toks(1, 3), self.k()]
         if c == "JustCfg": return ["JustCfg", self.toks(1, 2)]
         if c == "Skip": return ["Skip", self.r.randint(1, 3)]
+        if c == "NestedDelims":
+            ps = self.r.sample(DELIMS, self.r.randint(1, 3))
+            return ["NestedDelims", ps[0][0], ps[0][1], [list(x) for x in ps[1:]]]
         raise AssertionError(c)
 
     def g(self, d, consuming_only=False):
@@ -320,6 +325,16 @@ def sample(rng, g, alpha, ctx=()):
     S = lambda x: sample(rng, x, alpha, ctx)
     if h in ("End", "Empty"): return []
     if h == "Skip": return [rng.choice(alpha) for _ in range(g[1])]
+    if h == "NestedDelims":
+        pairs = [(g[1], g[2])] + [tuple(x) for x in g[3]]
+        def bal(d):
+            out = []
+            for _ in range(rng.randint(0, 3)):
+                if d > 0 and rng.random() < 0.4:
+                    o, c = rng.choice(pairs); out += [o] + bal(d - 1) + [c]
+                else: out.append(rng.choice(alpha))
+            return out
+        return [g[1]] + bal(2) + [g[2]]
     if h == "Any": return [rng.choice(alpha)]
     if h in ("Just", "Custom"): return list(g[1])
     if h == "JustCfg": return list(ctx) if ctx else list(g[1])
